@@ -381,6 +381,20 @@ def enum_pushlens(tier):
             yield {"n": n}
 
 
+def enum_witlens(tier):
+    """CompactSize boundaries of witness item lengths and item counts: cheap enough for every run, in three stack positions."""
+    lens = [0, 1, 252, 253, 254, 255, 256, 257, 65534, 65535, 65536, 65537, 69999, 70000]
+    if tier == "thorough":
+        lens += list(range(65530, 65541)) + list(range(69990, 70001)) + [1000, 32767, 32768, 50000]
+    for n in lens:
+        for pos, items in (("alone", [f"R{n}:c3"]), ("first", [f"R{n}:c3", "ab", ""]), ("last", ["", "abcd", f"R{n}:c3"])):
+            for trailing in ("", "00ff"):
+                yield {"items": items, "trailing": trailing}
+    for cnt in (252, 253, 254, 255, 256, 300) + ((65535, 65536) if tier == "thorough" else ()):
+        yield {"items": ["7f"] * cnt, "trailing": "01"}
+        yield {"items": [""] * cnt, "trailing": ""}
+
+
 def _targets(tier):
     big = tier == "thorough"
     return [
@@ -390,6 +404,8 @@ def _targets(tier):
         Target("push-lengths", check_pushlen, enumerate_=enum_pushlens, required=["nt:pushdata1", "nt:pushdata2", "nt:pushdata4", "nt:boundary-len"], exhaustive=True),
         Target("witness", check_witness, strategy=lambda tier: witness_cases(big), budget={"quick": 3000, "thorough": 60000},
                required=["nt:wit-empty", "nt:wit-item>=253", "nt:wit-item-0"] + (["nt:wit-count>=253"] if big else [])),
+        Target("witness-lengths", check_witness, enumerate_=enum_witlens,
+               required=["nt:wit-item>=253", "nt:wit-item>=65536", "nt:wit-count>=253", "nt:wit-item-0"], exhaustive=True),
         Target("builders", check_builder, enumerate_=enum_builders,
                required=["nt:p2sh-sig-redeem>75", "nt:nulldata>75", "nt:multisig-16of16", "nt:witness-version>=1"], exhaustive=True),
     ]
